@@ -623,6 +623,8 @@ type gen struct {
 	now  time.Time
 	docs []docMeta
 	feat map[string]bool
+	// the instant just picked sits within a nanosecond of a drift boundary: render all 9 digits
+	exact bool
 }
 
 func pad(n, w int) string { return fmt.Sprintf("%0*d", w, n) }
@@ -631,9 +633,16 @@ func pad(n, w int) string { return fmt.Sprintf("%0*d", w, n) }
 func (g *gen) renderTime(t time.Time) (string, time.Time, string) {
 	r := g.r
 	t = t.UTC()
-	switch r.Intn(4) {
+	sel := r.Intn(4)
+	if g.exact && sel == 2 {
+		sel = 3
+	}
+	switch sel {
 	case 0, 1: // ES
 		nd := r.Intn(10)
+		if g.exact {
+			nd = 9
+		}
 		unit := int64(1)
 		for i := 0; i < 9-nd; i++ {
 			unit *= 10
@@ -650,6 +659,9 @@ func (g *gen) renderTime(t time.Time) (string, time.Time, string) {
 		return t.In(g.zone()).Format(time.RFC3339), t, "rfc3339"
 	}
 	nd := r.Range(1, 9)
+	if g.exact {
+		nd = 9
+	}
 	unit := int64(1)
 	for i := 0; i < 9-nd; i++ {
 		unit *= 10
@@ -680,11 +692,16 @@ var garbageTimes = []string{"junk", "2026-13-45 00:00:00", "2026-09-25", "2026-0
 func (g *gen) pickInstant() time.Time {
 	r := g.r
 	c := driftCfgs[g.cfg]
-	eps := rng.Pick(r, []time.Duration{0, 1, -1, time.Millisecond, -time.Millisecond, time.Microsecond, -time.Microsecond, time.Second, -time.Second})
+	eps := rng.Pick(r, []time.Duration{0, 0, 1, -1, time.Millisecond, -time.Millisecond, time.Microsecond, -time.Microsecond, time.Second, -time.Second})
+	g.exact = false
 	switch r.Intn(8) {
 	case 0, 1:
+		g.exact = eps > -2 && eps < 2
+		g.feat["time-boundary"] = true
 		return g.now.Add(-(c.drift + eps))
 	case 2, 3:
+		g.exact = eps > -2 && eps < 2
+		g.feat["time-boundary"] = true
 		return g.now.Add(-(-c.fdrift + eps))
 	case 4:
 		return g.now.Add(-eps)
